@@ -1016,6 +1016,8 @@ class MPO(MPSGeometry):
             IdL = self.IdL[i + 1]
             IdR = self.IdR[i + 1]
             assert IdL is not None and IdR is not None
+            # e.g. MPO.__add__ stores IdR = -1: the comparison `IdL > IdR` below needs non-negative indices
+            IdL, IdR = IdL % U1.shape[1], IdR % U1.shape[1]
             U1[:, IdL, :, :] = U1[:, IdL, :, :] + dt * U1[:, IdR, :, :]
             keep = np.ones(U1.shape[1], dtype=bool)
             keep[IdR] = False
@@ -1034,6 +1036,8 @@ class MPO(MPSGeometry):
         IdL = self.IdL[0]
         IdR = self.IdR[0]
         assert IdL is not None and IdR is not None
+        chi0 = self.get_W(0).get_leg('wL').ind_len
+        IdL, IdR = IdL % chi0, IdR % chi0
         if IdL > IdR:
             IdLR_0 = IdL - 1
         else:
